@@ -29,6 +29,17 @@ def contents(p):
 
 
 def mk(content, fresh, p):
+    if content == "S5":
+        # a phrase repeated by concatenating it twice: the song holds every Message object of the phrase two times
+        phrase = lib.seq_rel([(0, 6, p, 0, 64), (8, 4, p + 3, 0, 50)], [], 16)
+        s = lib.seq_rel([(0, 4, p + 7, 0, 40)], [("ks", 0, "D")], 8)
+        s.concatenate([phrase, phrase])
+        if fresh == "AR":
+            s.refresh()
+        elif fresh == "A":
+            s.refresh()
+            s.invalidate_rel()
+        return s
     if content == "S4":
         # non-integral tick values: the only public way to get them is halving odd tick distances without re-quantising
         s = lib.seq_abs([(1, 11, p, 0, 64), (13, 24, p + 4, 0, 50), (101, 21, p + 7, 1, 9)], [("ts", 0, 4, 4)], 192)
@@ -55,6 +66,7 @@ for _route in ("seq_copy", "split", "bars_q", "bars_nq"):
             SEEDS.append((_route, _c, _f))
 for _f in ("A", "R", "AR"):
     SEEDS.append(("seq_copy", "S4", _f))
+    SEEDS.append(("seq_copy", "S5", _f))
 for _c in ("S1", "S3"):
     for _f in ("A", "R", "AR"):
         SEEDS.append(("bar_copy", _c, _f))
